@@ -164,7 +164,9 @@ def impl_view(case, obs):
                list(w["pids"]), canon_cfg(w["cfg"])] for w in o["watchers"]]
         ws.sort(key=lambda w: w[0])
         steps.append(ws)
-    return {"steps": rename_pids(steps)}
+    # workers alive in the kernel that no watcher lists (the model has none: a stopped watcher's workers die)
+    orphans = [len(set(o["live"]) - set(p for w in o["watchers"] for p in w["pids"])) for o in obs["steps"]]
+    return {"steps": rename_pids(steps), "orphans": orphans}
 
 
 # --------------------------------------------------------------------------- implementation side
@@ -235,7 +237,7 @@ def model_parse(case, line):
             env = pairs()
             ws.append([name, np_, active, pids, {"np": cnp, "opts": opts, "env": env}])
         steps.append(ws)
-    return {"steps": rename_pids(steps)}
+    return {"steps": rename_pids(steps), "orphans": [0] * len(steps)}
 
 
 def first_diff(case, mv, iv):
@@ -249,7 +251,8 @@ def first_diff(case, mv, iv):
                         if x[j] != y[j]:
                             return {"step": t, "watcher": x[0], "field": what, "model": x[j], "impl": y[j]}
             return {"step": t, "model_names": [x[0] for x in a], "impl_names": [y[0] for y in b]}
-    return {"model_steps": len(mv["steps"]), "impl_steps": len(iv["steps"])}
+    return {"model_steps": len(mv["steps"]), "impl_steps": len(iv["steps"]), "model_orphans": mv.get("orphans"),
+            "impl_orphans": iv.get("orphans")}
 
 
 # --------------------------------------------------------------------------- oracle
@@ -408,8 +411,6 @@ def oracle(case, obs):
         owned = set(p for w in o["watchers"] for p in w["pids"])
         if set(o["live"]) - owned:
             fail(i, "c12:orphan-worker", "alive but in no watcher: %r" % sorted(set(o["live"]) - owned))
-        if o.get("zombies"):
-            fail(i, "c12:unreaped-worker", "zombies %r" % o["zombies"])
         # -- unchanged watchers keep their pids; numprocesses alone adds / removes the difference
         all_same = sorted(pn) == sorted(on) == sorted(fn) == sorted(fpn)
         for name in want:
@@ -689,7 +690,7 @@ def gen_clash(rng):
 
 
 def generate(rng, tier):
-    n = 300 if tier == "quick" else 2000      # thorough: core.py runs this once per worker process (x14)
+    n = 300 if tier == "quick" else 1500      # thorough: core.py runs this once per worker process (x14)
     out = []
     for i in range(n):
         r = i % 20
